@@ -8,7 +8,7 @@ WB = M + "WebsocketBuffer"
 HK = M + "Handshake"
 
 # ------------------------------------------------------------------------------ WebsocketBuffer
-cls(WB, fields={"value": "none | obj io:BytesIO | obj io:StringIO", "length": "int", "max_length": "int"},
+cls(WB, fields={"value": "opt obj io:IOBuf", "length": "int", "max_length": "int"},
     inv=[("WebsocketBuffer.inv.length", "self.length >= 0", "C10"),
          # the accumulated size is the size of what has been written
          ("WebsocketBuffer.inv.size", "implies(self.value is not None, self.length == len(self.value.content)) and implies(self.value is None, self.length == 0)", "C10")])
@@ -75,7 +75,7 @@ WSS = "hypercorn.protocol.ws_stream:ASGIWebsocketState"
 cls(
     WS,
     fields={
-        "app": "opaque", "app_put": "opaque", "buffer": "obj " + WB, "client": "opaque", "closed": "bool",
+        "app": "opaque", "app_put": "none", "buffer": "obj " + WB, "client": "opaque", "closed": "bool",
         "config": "obj hypercorn.config:Config", "context": "obj hypercorn.typing:WorkerContext",
         "task_group": "obj hypercorn.typing:TaskGroup", "response": "maybe msg(headers:short)", "scope": "maybe " + WSCOPE,
         "send": "opaque", "scheme": "str", "server": "opaque", "start_time": "maybe real",
@@ -88,13 +88,14 @@ cls(
         "g_remote_closed": "bool",  # a close frame from the client has been seen
         "g_remote_code": "int",  # its code
         "g_too_big": "bool",  # a message exceeded websocket_max_message_size
+        "g_finished": "bool",  # the application has returned (app_send(None) was called)
     },
     callbacks={
         "send": Callback(name="send", effect="yields", record="sent",
                          requires=[("C11.ws.one-handshake-answer", "implies(isinstance(e, Response), self.g_n_final == 0)", "C11,C12")],
                          ghost=["self.g_n_final = self.g_n_final + (1 if isinstance(e, Response) else 0)",
                                 "self.g_n_end = self.g_n_end + (1 if isinstance(e, EndBody) else 0)"]),
-        "app_put": Callback(name="app_put", effect="yields", record="puts", present=None,
+        "app_put": Callback(name="app_put", effect="yields", record="puts", present="self.g_app_started",
                             requires=[("C03.ws.nothing-after-disconnect", "self.g_disc == 0", "C03"),
                                       ("C10.nothing-after-too-big", "implies(e['type'] == 'websocket.receive', not self.g_too_big)", "C10")],
                             ghost=["self.g_disc = self.g_disc + (1 if e['type'] == 'websocket.disconnect' else 0)"]),
@@ -107,13 +108,14 @@ cls(
         # the buffer holds exactly the message wsproto has in progress (same type), else nothing
         ("WSStream.inv.buffer", "implies(has(self, 'connection'), (self.buffer.value is None) == (value_of(self, 'connection').cur_type == 0) "
          "and implies(self.buffer.value is not None, isinstance(self.buffer.value, StringIO) == (value_of(self, 'connection').cur_type == 1)))", "C10,C04"),
+        ("WSStream.inv.accepted-started", "implies(has(self, 'handshake') and value_of(self, 'handshake').accepted, self.g_app_started)", "C11"),
         ("WSStream.inv.accepted", "implies(has(self, 'handshake') and value_of(self, 'handshake').accepted, has(self, 'connection'))", "C04"),
     ],
     rely=[
         ("WSStream.rely.closed-monotone", "implies(old(self.closed), self.closed)", "C03"),
         ("WSStream.rely.started-monotone", "implies(old(self.g_app_started), self.g_app_started)", "C03"),
         ("WSStream.rely.set-stays", "implies(has(old(self), 'scope'), has(self, 'scope')) and implies(has(old(self), 'start_time'), has(self, 'start_time')) and implies(has(old(self), 'handshake'), has(self, 'handshake')) and implies(has(old(self), 'connection'), has(self, 'connection'))", "C04"),
-        ("WSStream.rely.counters-grow", "self.g_disc >= old(self.g_disc) and self.g_access >= old(self.g_access)", "C03"),
+        ("WSStream.rely.counters-grow", "self.g_disc >= old(self.g_disc) and self.g_access >= old(self.g_access) and implies(old(self.g_finished), self.g_finished)", "C03"),
     ],
     task_rely={
         "reader": [("WSStream.rely[reader].not-started", "implies(not old(self.g_app_started), not self.g_app_started and self.state == old(self.state) and self.closed == old(self.closed) "
@@ -121,7 +123,9 @@ cls(
                    ("WSStream.rely[reader].receive-side", "self.g_too_big == old(self.g_too_big) and self.g_remote_closed == old(self.g_remote_closed) and self.g_remote_code == old(self.g_remote_code)", "C10")],
         "app": [("WSStream.rely[app].automaton", "implies(old(self.g_app_started), self.state == old(self.state) and self.g_n_final == old(self.g_n_final))", "C11")],
     },
-    task_stable={"app": ["response", "scope", "start_time", "handshake"], "reader": ["buffer", "scope", "start_time", "handshake"]},
+    task_inv={"app": [("WSStream.qinv.handshake", "implies(self.state == ASGIWebsocketState.HANDSHAKE and not self.g_finished, self.g_n_final == 0 and self.g_n_end == 0)", "C11,C12"),
+                      ("WSStream.qinv.answered", "implies(self.state in (ASGIWebsocketState.CONNECTED, ASGIWebsocketState.RESPONSE, ASGIWebsocketState.HTTPCLOSED), self.g_n_final == 1)", "C11,C12")]},
+    task_stable={"app": ["response", "scope", "start_time", "handshake"], "reader": ["buffer", "scope", "start_time", "handshake", "connection"]},
     published_inv=[("WSStream.published.requested", "has(self, 'scope') and has(self, 'start_time') and has(self, 'handshake')", "C04")],
 )
 
@@ -132,7 +136,7 @@ fn(WS + ".handle",
    params={"event": "obj hypercorn.protocol.events:Request | obj hypercorn.protocol.events:Body | obj hypercorn.protocol.events:Data | obj hypercorn.protocol.events:EndBody | obj hypercorn.protocol.events:StreamClosed"},
    effect="yields", task="reader",
    modifies=["self.closed", "self.state", "self.scope", "self.start_time", "self.handshake", "self.app_put", "self.buffer", "self.connection", "self.g_app_started", "self.g_spawned", "self.g_access", "self.g_disc", "self.g_n_final", "self.g_n_end",
-             "self.g_remote_closed", "self.g_remote_code", "self.g_too_big"],
+             "self.g_remote_closed", "self.g_remote_code", "self.g_too_big", "self.g_finished"],
    requires=[
        ("ws.handle.pre.request-first", "iff(isinstance(event, Request), not has(self, 'scope')) and implies(not isinstance(event, Request), has(self, 'start_time') and has(self, 'handshake'))"),
        ("ws.handle.pre.fresh", "implies(isinstance(event, Request), not self.closed and not self.g_app_started and self.state == ASGIWebsocketState.HANDSHAKE "
@@ -155,5 +159,44 @@ fn(WS + ".handle",
        ("C11.code", "implies(isinstance(event, StreamClosed) and not old(self.closed) and self.g_app_started, n_emitted('puts') == 1 and emitted('puts')[0]['type'] == 'websocket.disconnect' "
         "and emitted('puts')[0]['code'] == (old(self.g_remote_code) if old(self.g_remote_closed) else (1000 if old(self.state) in (ASGIWebsocketState.CLOSED, ASGIWebsocketState.HTTPCLOSED) else 1006)))", "C11"),
    ],
-   loops={0: {"invariant": [("ws.events.loop", "has(self, 'connection') and has(self, 'scope') and has(self, 'start_time') and has(self, 'handshake') and self.g_app_started and implies(self.closed, self.g_disc == 1) and value_of(self, 'handshake').accepted")]}},
    props=("C04", "C03", "C10", "C11"))
+
+# inlined at its call site; this entry only carries the loop invariant
+fn(WS + "._handle_events", params={}, inline=True, task="reader",
+   loops={0: {"invariant": [("ws.events.loop", "has(self, 'connection') and has(self, 'scope') and has(self, 'start_time') and has(self, 'handshake') and self.g_app_started and value_of(self, 'handshake').accepted")]}},
+   props=("C10",))
+
+fn(WS + ".app_send", params={"message": "none | msg(headers:short)"}, task="app", exceptional="app",
+   requires=[("ws.app_send.pre.started", "self.g_app_started"),
+             # once the application has returned (StreamClosed was sent) the protocol has closed the stream
+             ("ws.app_send.pre.finished-closed", "implies(self.g_finished, self.closed)")],
+   ghost_pre=["if message is None:\n    self.g_finished = True"],
+   ensures=[
+       ("C03.ws.noop-after-close", "implies(old(self.closed), n_emitted('sent') == 0 and n_emitted('ws') == 0 and n_emitted('puts') == 0)", "C03"),
+       # C05: the application returned / raised
+       ("C05.ws.none.handshake", "implies(message is None and not old(self.closed) and old(self.state) == ASGIWebsocketState.HANDSHAKE, "
+        "n_emitted('sent') == 3 and isinstance(emitted('sent')[0], Response) and emitted('sent')[0].status_code == 500 and isinstance(emitted('sent')[1], EndBody) and isinstance(emitted('sent')[2], StreamClosed))", "C05"),
+       ("C05.ws.none.connected", "implies(message is None and not old(self.closed) and old(self.state) == ASGIWebsocketState.CONNECTED, "
+        "last_is('sent', StreamClosed) and trace_all('ws', 'x', isinstance(x, CloseConnection) and x.code == CloseReason.INTERNAL_ERROR))", "C05"),
+       # C11: the application's decision is rendered faithfully
+       ("C11.accept", "implies(not old(self.closed) and message is not None and message['type'] == 'websocket.accept', old(self.state) == ASGIWebsocketState.HANDSHAKE and self.state == ASGIWebsocketState.CONNECTED "
+        "and n_emitted('sent') == 1 and isinstance(emitted('sent')[0], Response) "
+        "and emitted('sent')[0].status_code == (101 if value_of(old(self), 'scope')['http_version'] == '1.1' else 200))", "C11"),
+       ("C11.close403", "implies(not old(self.closed) and message is not None and message['type'] == 'websocket.close' and old(self.state) == ASGIWebsocketState.HANDSHAKE, "
+        "self.state == ASGIWebsocketState.HTTPCLOSED and n_emitted('sent') == 2 and isinstance(emitted('sent')[0], Response) and emitted('sent')[0].status_code == 403 and isinstance(emitted('sent')[1], EndBody))", "C11"),
+       # C12: a call that returns normally was valid for its state
+       ("C12.ws.table.send", "implies(not old(self.closed) and message is not None and message['type'] == 'websocket.send', old(self.state) == ASGIWebsocketState.CONNECTED)", "C12"),
+       ("C12.ws.table.accept", "implies(not old(self.closed) and message is not None and message['type'] == 'websocket.accept', old(self.state) == ASGIWebsocketState.HANDSHAKE)", "C12"),
+       ("C12.ws.table.response-start", "implies(not old(self.closed) and message is not None and message['type'] == 'websocket.http.response.start', old(self.state) == ASGIWebsocketState.HANDSHAKE)", "C12"),
+       ("C12.ws.table.response-body", "implies(not old(self.closed) and message is not None and message['type'] == 'websocket.http.response.body', old(self.state) in (ASGIWebsocketState.HANDSHAKE, ASGIWebsocketState.RESPONSE))", "C12"),
+       ("C12.ws.table.known-type", "implies(not old(self.closed) and message is not None, message['type'] in ('websocket.accept', 'websocket.send', 'websocket.close', 'websocket.http.response.start', 'websocket.http.response.body'))", "C12"),
+       ("C12.ws.table.closed", "implies(not old(self.closed) and message is not None and old(self.state) in (ASGIWebsocketState.CLOSED, ASGIWebsocketState.HTTPCLOSED), False)", "C12"),
+       # C10: messages the application sends keep their type and payload
+       ("C10.send", "implies(not old(self.closed) and message is not None and message['type'] == 'websocket.send' and n_emitted('ws') == 1, "
+        "(isinstance(emitted('ws')[0], BytesMessage) == (has_key(message, 'bytes') and not tagis(message.get('bytes'), 'none'))))", "C10"),
+       ("C02.ws.sid", "trace_all('sent', 'x', x.stream_id == self.stream_id)", "C02"),
+   ],
+   props=("C03", "C05", "C10", "C11", "C12"))
+
+for _m in ("_accept", "_send_rejection", "_send_error_response", "_send_wsproto_event"):
+    fn(WS + "." + _m, params={}, inline=True, task="app", props=("C11",))
